@@ -111,6 +111,8 @@ func valueRuns(thorough bool) []hrun {
 
 func indepRuns(thorough bool) []hrun {
 	var r []hrun
+	// parameter order in nestings of ranges, lists and strings (no row evaluation needed)
+	r = append(r, hrun{Harness: "SQLTree", Params: P("D", 2, "LEAVES", 3, "ONEDIGIT", 1, "NOROWS", 1)})
 	for f := 0; f < nSQLForms; f++ {
 		r = append(r, hrun{Harness: "ParamIndependent", Params: P("D", 0, "FORM", f)})
 	}
@@ -183,8 +185,10 @@ var props = map[string]propCfg{
 			{Harness: "TreeRoundTrip", Params: P("D", 1, "LEAVES", 1, "VARIANT", 2)},
 			{Harness: "TreeRoundTrip", Params: P("D", 2, "LEAVES", 0, "VARIANT", 0)},
 			{Harness: "TreeRoundTrip", Params: P("D", 2, "LEAVES", 0, "VARIANT", 1)},
+			{Harness: "TreeRoundTrip", Params: P("D", 3, "LEAVES", 3, "OPS", 1, "VARIANT", 0)},
 		},
 		Thorough: []hrun{
+			{Harness: "TreeRoundTrip", Params: P("D", 3, "LEAVES", 3, "OPS", 1, "VARIANT", 0)}, {Harness: "TreeRoundTrip", Params: P("D", 3, "LEAVES", 3, "OPS", 2, "VARIANT", 0)},
 			{Harness: "TreeRoundTrip", Params: P("D", 1, "LEAVES", 1, "VARIANT", 0)},
 			{Harness: "TreeRoundTrip", Params: P("D", 1, "LEAVES", 1, "VARIANT", 1)},
 			{Harness: "TreeRoundTrip", Params: P("D", 1, "LEAVES", 1, "VARIANT", 2)},
@@ -213,6 +217,7 @@ var props = map[string]propCfg{
 			{Harness: "TreeLayout", Params: P("D", 1, "LEAVES", 1, "VARIANT", 0)}, {Harness: "TreeLayout", Params: P("D", 1, "LEAVES", 1, "VARIANT", 1)}, {Harness: "TreeLayout", Params: P("D", 1, "LEAVES", 1, "VARIANT", 2)},
 			{Harness: "TreeLayout", Params: P("D", 2, "LEAVES", 0, "VARIANT", 0)}, {Harness: "TreeLayout", Params: P("D", 2, "LEAVES", 0, "VARIANT", 1)},
 			{Harness: "TreeLayout", Params: P("D", 1, "LEAVES", 1, "VARIANT", 3)},
+			{Harness: "TreeLayout", Params: P("D", 3, "LEAVES", 3, "OPS", 1, "VARIANT", 2)},
 			{Harness: "LayoutTokens", Params: P("K", 2, "DF", 0)}, {Harness: "LayoutTokens", Params: P("K", 3, "DF", 0, "SHAPES", 1)},
 		},
 		Thorough: []hrun{
@@ -229,8 +234,10 @@ var props = map[string]propCfg{
 			{Harness: "TreeDefaultField", Params: P("D", 1, "LEAVES", 1, "DFKIND", 0)}, {Harness: "TreeDefaultField", Params: P("D", 1, "LEAVES", 1, "DFKIND", 1)},
 			{Harness: "TreeDefaultField", Params: P("D", 2, "LEAVES", 0, "DFKIND", 0)},
 			{Harness: "TreeDefaultField", Params: P("D", 1, "LEAVES", 1, "DFKIND", 0, "VARIANT", 1)},
+			{Harness: "TreeDefaultField", Params: P("D", 3, "LEAVES", 6, "OPS", 1, "DFKIND", 0)},
 		},
 		Thorough: []hrun{
+			{Harness: "TreeDefaultField", Params: P("D", 3, "LEAVES", 6, "OPS", 1, "DFKIND", 0)}, {Harness: "TreeDefaultField", Params: P("D", 3, "LEAVES", 6, "OPS", 2, "DFKIND", 0)},
 			{Harness: "TreeDefaultField", Params: P("D", 1, "LEAVES", 1, "DFKIND", 0, "VARIANT", 1)}, {Harness: "TreeDefaultField", Params: P("D", 2, "LEAVES", 0, "DFKIND", 0, "VARIANT", 1)},
 			{Harness: "TreeDefaultField", Params: P("D", 1, "LEAVES", 1, "DFKIND", 0)}, {Harness: "TreeDefaultField", Params: P("D", 1, "LEAVES", 1, "DFKIND", 1)},
 			{Harness: "TreeDefaultField", Params: P("D", 2, "LEAVES", 0, "DFKIND", 0)}, {Harness: "TreeDefaultField", Params: P("D", 2, "LEAVES", 2, "DFKIND", 0)},
@@ -311,9 +318,9 @@ var props = map[string]propCfg{
 		Outside: "maps with more than one entry removed; render functions with side effects on the tree; trees not reachable from Parse",
 	},
 	"C16": {
-		Quick:    withOnly([]hrun{{Harness: "LexSegment", Params: P("N", 0)}, {Harness: "LexSegment", Params: P("N", 1)}, {Harness: "LexSegment", Params: P("N", 2)}, {Harness: "LexSegment", Params: P("N", 3)}}, nil, true),
-		Thorough: withOnly([]hrun{{Harness: "LexSegment", Params: P("N", 0)}, {Harness: "LexSegment", Params: P("N", 1)}, {Harness: "LexSegment", Params: P("N", 2)}, {Harness: "LexSegment", Params: P("N", 3)}, {Harness: "LexSegment", Params: P("N", 4)}}, nil, true),
-		Bounds:   "all byte strings (all 256 values per byte) of length <= 3 (quick) / <= 4 (thorough); every Peek/Next step up to N+2 tokens",
+		Quick:    withOnly([]hrun{{Harness: "LexSegment", Params: P("N", 0)}, {Harness: "LexSegment", Params: P("N", 1)}, {Harness: "LexSegment", Params: P("N", 2)}, {Harness: "LexSegment", Params: P("N", 3)}, {Harness: "LexTokens", Params: P("K", 1)}, {Harness: "LexTokens", Params: P("K", 2)}}, nil, true),
+		Thorough: withOnly([]hrun{{Harness: "LexSegment", Params: P("N", 0)}, {Harness: "LexSegment", Params: P("N", 1)}, {Harness: "LexSegment", Params: P("N", 2)}, {Harness: "LexSegment", Params: P("N", 3)}, {Harness: "LexSegment", Params: P("N", 4)}, {Harness: "LexTokens", Params: P("K", 1)}, {Harness: "LexTokens", Params: P("K", 2)}, {Harness: "LexTokens", Params: P("K", 3), Seconds: 900}, {Harness: "LexSegment", Params: P("N", 5), Seconds: 1200}}, nil, true),
+		Bounds:   "all byte strings (all 256 values per byte) of length <= 3 (quick) / <= 4, 5 under a time cap (thorough); sequences of <= 2 (quick) / 3 (thorough, time cap) token shapes out of 31 (the 20 token shapes plus dotted/dashed words, trailing backslash, escapes before multi-byte runes, escaped delimiters, unterminated phrases and regexps, bad characters) with symbolic literal bytes and three kinds of gaps; every Peek/Next step; Parse fails whenever the stream has an error token",
 		Outside:  "inputs longer than the bound",
 	},
 }
